@@ -198,3 +198,64 @@ def backward_slice(body, local, depth=16):
                             note_place(op[1])
                             work.append((op[1][0], d + 1))
     return calls, fields
+
+
+def value_root(body, l, depth=8):
+    """follow copies / integer casts back to the local that first held the value"""
+    for _ in range(depth):
+        sd = body.single_def(l)
+        if not sd or sd[2] != "assign":
+            return l
+        rv = sd[3][2]
+        if rv[0] == "use" and rv[1][0] in ("c", "m") and not rv[1][1][1]:
+            l = rv[1][1][0]
+            continue
+        if rv[0] == "cast" and rv[1] in ("IntToInt",) and rv[2][0] in ("c", "m") and not rv[2][1][1]:
+            l = rv[2][1][0]
+            continue
+        return l
+    return l
+
+
+def upper_bound_guards(body, value_local):
+    """switches that compare `value_local` (up to copies/casts) against a constant or another value and dominate
+    later code.  Returns list of (switch_bb, big_arm_target, small_arm_target, other_operand)."""
+    from .facts import op_const
+    root = value_root(body, value_local)
+    out = []
+    for bi, blk in enumerate(body.blocks):
+        sw = switch_on(body, bi)
+        if not sw:
+            continue
+        l, neg, arms, other = sw
+        sd = body.single_def(l)
+        if not sd or sd[2] != "assign" or sd[3][2][0] != "bin":
+            continue
+        rv = sd[3][2]
+        op, a, b_ = rv[1], rv[2], rv[3]
+        if op not in ("Gt", "Ge", "Lt", "Le"):
+            continue
+        la, lb = op_local(a), op_local(b_)
+        ra = value_root(body, la) if la is not None else None
+        rb = value_root(body, lb) if lb is not None else None
+        if ra == root:
+            value_left = True
+            other_op = b_
+        elif rb == root:
+            value_left = False
+            other_op = a
+        else:
+            continue
+        # truth value of "value is too big"
+        big_when_true = (op in ("Gt", "Ge")) == value_left
+        t_true = None
+        t_false = None
+        for v, tb in arms:
+            if v == 0:
+                t_false = tb
+        t_true = other
+        if neg:
+            t_true, t_false = t_false, t_true
+        big_t, small_t = (t_true, t_false) if big_when_true else (t_false, t_true)
+        out.append((bi, big_t, small_t, other_op))
+    return out
